@@ -203,7 +203,9 @@ def ports_case_st(draw, tier):
         rec[okey] = None
     items = []
     pv = st.one_of(st.integers(1, 30), st.integers(1, 30), st.sampled_from([1, 20, 21, 22, 23, 80, 443, 65534, 65535]),
-                   st.integers(1, 65535))
+                   st.integers(1, 65535),
+                   # ports that carry a name on one platform / version only: a generated line must use THIS platform's names
+                   st.sampled_from([135, 15001, 15002, 521, 3949, 514, 37, 139, 4500, 22, 389]))
     only = draw(st.sampled_from(["mixed", "mixed", "mixed", "ranges", "singles"]))
     for _ in range(draw(st.integers(1, 10))):
         is_range = {"mixed": draw(st.integers(0, 2)) == 0, "ranges": True, "singles": False}[only]
